@@ -18,7 +18,7 @@ Section Inv.
 
   (* ---- C12: every request is answered exactly once, in order; nothing else is answered ---- *)
   Definition request_id (m : msg) : list N :=
-    match m with SemTokens _ id _ => [id] | OtherRequest _ id => [id] | _ => [] end.
+    match m with SemTokens _ id _ => [id] | BadParams _ id => [id] | OtherRequest _ id => [id] | _ => [] end.
   Definition reply_id (o : out) : list N :=
     match o with Reply _ _ id _ => [id] | ErrorReply _ _ id _ => [id] | Publish _ _ _ _ _ => [] end.
 
@@ -34,11 +34,15 @@ Section Inv.
   Qed.
 
   (* unimplemented methods get an error reply, implemented ones a result *)
-  Lemma step_error_iff d m id c : In (ErrorReply _ _ id c) (snd (step d m)) <-> m = OtherRequest _ id /\ c = method_not_found.
+  Lemma step_error_iff d m id c : In (ErrorReply _ _ id c) (snd (step d m)) <->
+    (m = OtherRequest _ id /\ c = method_not_found) \/ (m = BadParams _ id /\ c = invalid_params).
   Proof.
-    destruct m; cbn; split; intro H; try tauto; try (destruct H as [H|[]]; discriminate); try (destruct H; discriminate).
-    - destruct H as [H|[]]. inversion H. split; reflexivity.
-    - destruct H as [H1 H2]. inversion H1. subst. left; reflexivity.
+    destruct m; cbn; split; intro H; try tauto; try (destruct H as [H|[]]; discriminate);
+      try (destruct H as [[H _]|[H _]]; discriminate).
+    - destruct H as [H|[]]. inversion H. right. split; reflexivity.
+    - destruct H as [[H _]|[H1 H2]]; [discriminate|]. inversion H1. subst. left; reflexivity.
+    - destruct H as [H|[]]. inversion H. left. split; reflexivity.
+    - destruct H as [[H1 H2]|[H _]]; [|discriminate]. inversion H1. subst. left; reflexivity.
   Qed.
 
   (* ---- C11: one publish per didOpen / didChange, for that document and version ---- *)
@@ -75,19 +79,42 @@ Section Inv.
     intros H k. unfold store. destruct (u_file u); [|apply H]. rewrite !get_put. destruct (u_id u =? k); [reflexivity | apply H].
   Qed.
 
+  Lemma get_remove d u k : get text (remove text d u) k = if u =? k then None else get text d k.
+  Proof.
+    unfold remove. induction d as [|[k' t'] r IH]; [destruct (u =? k); reflexivity|].
+    cbn [filter fst]. destruct (N.eqb_spec k' u) as [E'|NE']; cbn [negb].
+    - cbn [get]. rewrite IH. destruct (N.eqb_spec u k) as [E|NE]; [reflexivity|]. destruct (N.eqb_spec k' k); [congruence | reflexivity].
+    - cbn [get]. destruct (N.eqb_spec k' k) as [E2|NE2]; [|exact IH]. destruct (N.eqb_spec u k); [congruence | reflexivity].
+  Qed.
+
+  Lemma close_same a b u : same_contents a b -> same_contents (close text a u) (close text b u).
+  Proof.
+    intros H k. unfold close. destruct (u_file u); [|apply H]. rewrite !get_remove. destruct (u_id u =? k); [reflexivity | apply H].
+  Qed.
+
+  (* a closed document is gone: nothing is stored for it, the others are untouched *)
+  Theorem close_forgets d u : u_file u = true ->
+    get text (fst (step d (DidClose _ u))) (u_id u) = None /\
+    (forall k, k <> u_id u -> get text (fst (step d (DidClose _ u))) k = get text d k).
+  Proof.
+    intro Hf. cbn [Lsp.step fst]. unfold close. rewrite Hf. split; [rewrite get_remove, N.eqb_refl; reflexivity|].
+    intros k Hk. rewrite get_remove. destruct (N.eqb_spec (u_id u) k); [congruence | reflexivity].
+  Qed.
+
   (* the analysis depends on the current contents only (this is C06's order-independence, assumed) *)
   Hypothesis diag_ext : forall a b u, same_contents a b -> diag a u = diag b u.
 
   Lemma step_same a b m : same_contents a b ->
     same_contents (fst (step a m)) (fst (step b m)) /\ snd (step a m) = snd (step b m).
   Proof.
-    intro H. destruct m as [u v t|u v cs|id u|id| |id]; cbn [Lsp.step fst snd]; try (split; [exact H | reflexivity]).
+    intro H. destruct m as [u v t|u v cs|u|id u|id|id| |id]; cbn [Lsp.step fst snd]; try (split; [exact H | reflexivity]).
     - pose proof (store_same a b u t H) as Hs. split; [exact Hs|]. unfold publish.
       destruct (u_file u); [rewrite (diag_ext _ _ _ Hs)|]; reflexivity.
     - destruct (last (map Some cs) None) as [t|].
       + pose proof (store_same a b u t H) as Hs. split; [exact Hs|]. unfold publish.
         destruct (u_file u); [rewrite (diag_ext _ _ _ Hs)|]; reflexivity.
       + split; [exact H|]. unfold publish. destruct (u_file u); [rewrite (diag_ext _ _ _ H)|]; reflexivity.
+    - split; [apply close_same; exact H | reflexivity].
     - split; [exact H|]. rewrite (H (u_id u)). reflexivity.
   Qed.
 
